@@ -76,8 +76,8 @@ Proof.
   destruct H as [A [A' [I [I' [Hff Hr]]]]]. cbn [reference_epochs].
   pose proof (reference_same_set vals D D' A A' I I' Hff) as E.
   destruct (reference vals D) as [rs bs]. destruct (reference vals D') as [rs' bs']. cbn [snd] in E. subst bs'.
-  destruct (seal_cut seal bs) as [cut sealed]. cbn [map epoch_blocks fst snd]. f_equal.
-  destruct sealed; [apply IH; exact Hr|reflexivity].
+  destruct (seal_cut seal bs) as [cut sealed]. destruct sealed; cbn [map epoch_blocks fst snd]; f_equal.
+  apply IH; exact Hr.
 Qed.
 
 (* the reference refines itself: C10_full / C01_full are satisfiable *)
